@@ -178,7 +178,9 @@ static void end_scen(double t0, const char *bounds)
 int main(int argc, char **argv)
 {
     sx_init(argc, argv, "C19");
+    double t_init = sx_now();
     int prov; if (MPI_Init_thread(&argc, &argv, MPI_THREAD_SERIALIZED, &prov) != MPI_SUCCESS) { fprintf(stderr, "MPI_Init failed\n"); return 2; }
+    if (sx_deadline > 0) sx_deadline += sx_now() - t_init;     /* the budget is for the enumeration; MPI start-up can take a minute on a loaded machine */
     MPI_Comm_set_errhandler(MPI_COMM_WORLD, MPI_ERRORS_RETURN);
     struct sigaction sa; memset(&sa, 0, sizeof(sa)); sa.sa_handler = on_signal; sa.sa_flags = SA_NODEFER | SA_RESETHAND;
     sigaction(SIGSEGV, &sa, NULL); sigaction(SIGBUS, &sa, NULL); sigaction(SIGFPE, &sa, NULL); sigaction(SIGABRT, &sa, NULL);
